@@ -64,7 +64,7 @@ impl Prop for C02 {
         for be in [false, true] {
             for k in [1u32, 2, 3, 4, 5, 6, 7, 8, 21, 33, 40, 64, 100] {
                 for variant in 0..6u32 {
-                    if k > 8 && variant > 1 {
+                    if k > 8 && variant > 3 {
                         continue;
                     }
                     let mine = idx % nshards == shard;
